@@ -362,6 +362,81 @@ func ruleTableKey(c *Ctx) *RuleResult {
 	}
 	checkOrder("SetIndex", "Reset", false)
 	checkOrder("Index", "RawGet", true)
+	// (e) the array part's methods agree on which integer keys it owns: every method
+	// that takes an index tests it against the capacity len(a.values). A sibling that
+	// tests against the current length a.len instead disowns keys the others put there
+	// (a key cleared during a traversal stays a valid argument of next)
+	arrT := p.TypeNamed("runtime", "array")
+	if arrT == nil {
+		r.broken("anchor unresolved: runtime.array")
+		return r
+	}
+	nArr := 0
+	for _, f := range p.ModFuncs() {
+		if relPkg(funcPkgPath(f)) != "runtime" || f.Signature.Recv() == nil || f.Synthetic != "" || f.Blocks == nil {
+			continue
+		}
+		if _, tn, ok := namedOf(f.Signature.Recv().Type()); !ok || tn != "array" {
+			continue
+		}
+		// an int64 index parameter
+		var idx *ssa.Parameter
+		for _, prm := range f.Params[1:] {
+			if bt, ok := prm.Type().Underlying().(*types.Basic); ok && bt.Kind() == types.Int64 {
+				idx = prm
+				break
+			}
+		}
+		if idx == nil {
+			continue
+		}
+		nArr++
+		usesCap, usesLen := false, false
+		forEachInstr(f, func(ins ssa.Instruction) {
+			b, ok := ins.(*ssa.BinOp)
+			if !ok {
+				return
+			}
+			switch b.Op {
+			case token.LEQ, token.LSS, token.GEQ, token.GTR:
+			default:
+				return
+			}
+			other := b.Y
+			if stripConv(b.Y) == ssa.Value(idx) {
+				other = b.X
+			} else if stripConv(b.X) != ssa.Value(idx) {
+				return
+			}
+			other = stripConv(other)
+			if call, ok := other.(*ssa.Call); ok && isLenCall(call) {
+				if u, ok := call.Call.Args[0].(*ssa.UnOp); ok {
+					if fa, ok := u.X.(*ssa.FieldAddr); ok {
+						if _, _, fld := fieldOfAddr(fa); fld == "values" {
+							usesCap = true
+						}
+					}
+				}
+			}
+			if u, ok := other.(*ssa.UnOp); ok {
+				if fa, ok := u.X.(*ssa.FieldAddr); ok {
+					if _, _, fld := fieldOfAddr(fa); fld == "len" {
+						usesLen = true
+					}
+				}
+			}
+		})
+		switch {
+		case usesCap:
+			r.ok(fmt.Sprintf("(e) %s tests its index against the array's capacity", fnKey(f)))
+		case usesLen:
+			r.fail("array-ownership-by-length:"+fnKey(f), p.Pos(f.Pos()), fmt.Sprintf("%s decides whether an integer key belongs to the array part by comparing it with the current length a.len only, while its siblings (get, setValue, resetValue, remove) compare with the capacity len(a.values): a key the array owns is treated as foreign once a removal has shrunk the length — next() then looks it up in the hash part and raises 'invalid key', e.g. when a traversal clears the fields it visits", fnKey(f)))
+		default:
+			r.note("%s takes an index but compares it with neither the capacity nor the length", fnKey(f))
+		}
+	}
+	r.count("array_methods_with_index", nArr)
+	r.floor("array_methods_with_index", 4)
 	return r
 }
 
